@@ -438,3 +438,44 @@ def tlaps(c, name, wd, timeout=600):
         {"module": "proofs/" + name + ".tla", "obligations_proved": int(m.group(1)), "wall_s": round(dt, 1),
          "checker": "tlapm"})
     log("[tlaps] %s: %s obligations proved, %.1fs" % (name, m.group(1), dt))
+
+
+def apalache_inductive(c, module, wd, cinit, init, ind_init, ind_inv, inv, neg_cinit=None, timeout=600):
+    """Unbounded complement: Apalache discharges an inductive invariant (Init => IndInv,
+    IndInit /\ Next => IndInv', IndInv => Inv) over unbounded integers.  Recorded in the evidence
+    when it goes through; never a verdict.  With neg_cinit the last obligation must FAIL for the
+    negative constants (vacuity guard)."""
+    out_dir = os.path.join(wd, "apalache")
+    def one(ci, ini, iv, length):
+        try:
+            rc, out, dt = run(["apalache-mc", "check", "--cinit=" + ci, "--init=" + ini, "--inv=" + iv, "--length=%d" % length,
+                               "--out-dir=" + out_dir, os.path.join(SPEC, module + ".tla")], timeout)
+        except (ToolError, FileNotFoundError) as e:
+            return None, 0.0
+        if "EXITCODE: OK" in out:
+            return True, dt
+        if "Checker has found an error" in out:
+            return False, dt
+        return None, dt
+    obligations = [(cinit, init, ind_inv, 0), (cinit, ind_init, ind_inv, 1), (cinit, ind_init, inv, 0)]
+    total = 0.0
+    for o in obligations:
+        ok, dt = one(*o)
+        total += dt
+        if ok is not True:
+            c.note("Apalache did not discharge %s of %s in this run" % (o[1:3], module))
+            shutil.rmtree(out_dir, ignore_errors=True)
+            return
+    neg = None
+    if neg_cinit:
+        neg, dt = one(neg_cinit, ind_init, inv, 0)
+        total += dt
+        if neg is not False:
+            c.note("Apalache: the negative constants of %s did not produce the expected counterexample" % module)
+            shutil.rmtree(out_dir, ignore_errors=True)
+            return
+    shutil.rmtree(out_dir, ignore_errors=True)
+    c.cov.setdefault("proof_complements", []).append(
+        {"module": module + ".tla", "checker": "apalache-mc", "inductive_invariant": ind_inv, "implies": inv,
+         "obligations": 3, "negative_constants_refuted": bool(neg_cinit), "wall_s": round(total, 1)})
+    log("[apalache] %s: %s is inductive and implies %s for all positions and lengths, %.1fs" % (module, ind_inv, inv, total))
